@@ -12,7 +12,7 @@
 (***************************************************************************)
 EXTENDS AutoAlloc
 
-CONSTANTS Backlog, MaxPer, MaxW, MaxAllocs, MaxTime, Workers, MaxDemand
+CONSTANTS Backlog, MaxPer, MaxW, MaxAllocs, MaxTime, Workers, MaxDemand, MaxMn
 
 VARIABLES q,        \* the queue record (as in AutoAlloc)
           now,      \* virtual time
@@ -89,7 +89,9 @@ Resume ==
 
 Time == now < MaxTime /\ now' = now + 1 /\ UNCHANGED <<q, nextId, lost, started, finished>>
 
-Demands == [sn : 0..MaxDemand, mn_allocs : {0}, mn_per : {0}]
+\* single-node workers wanted, and multi-node allocations of MaxPer workers each (a multi-node task is only counted for a
+\* queue whose allocations are large enough, so mn_per <= maxPer)
+Demands == [sn : 0..MaxDemand, mn_allocs : {0}, mn_per : {0}] \cup [sn : 0..1, mn_allocs : 1..MaxMn, mn_per : {MaxPer}]
 Next ==
   \/ \E d \in Demands : \E n \in 0..Backlog : \E results \in [1..n -> BOOLEAN] : Tick(d, results) /\ act' = "Tick"
   \/ \E a \in DOMAIN q.allocs : \E s \in {"queued", "running", "finished", "failed", "error"} : Status(a, s) /\ act' = "Status"
